@@ -194,6 +194,27 @@ def visitor_completeness(F, res, fn_name, adt_short, rule="S1", fn_path=None, vi
     if t is None:
         res.anchor_missing(rule, "match on %s in %s" % (adt_short, fn_name))
         return
+    # a function may match on the value more than once (a first match that only computes a key, then the one that descends): the
+    # walk is the match in whose arms the most children reach a visit
+    cands = []
+    for b_ in sorted(fn.reachable()):
+        t_ = fn.term(b_)
+        if t_["k"] == "switch":
+            l_ = op_local(t_["op"])
+            o_ = d.origin(l_) if l_ is not None else {}
+            if o_.get("k") == "rv" and o_["rv"]["k"] == "discr" and o_["rv"]["of"] == adt:
+                cands.append((b_, t_))
+    if len(cands) > 1:
+        def score(c):
+            tg_, reach_ = regions(fn, c[1])
+            common_ = set.intersection(*reach_.values()) if len(reach_) > 1 else set()
+            n_ = 0
+            for v_ in F.adt(adt)["variants"]:
+                tgt_ = tg_.get({n2: v2 for v2, n2 in F.discr_map(adt).items()}.get(v_["name"]))
+                if tgt_ is not None and tgt_ != c[1]["otherwise"]:
+                    n_ += len(fields_read(fn, reach_[tgt_] - common_, v_["name"], F, visits, selections))
+            return n_
+        b0, t = max(cands, key=score)
     dm = F.discr_map(adt)
     inv = {n: v for v, n in dm.items()}
     tg, reach = regions(fn, t)
